@@ -108,6 +108,18 @@ func (g *generator) str() D {
 func (g *generator) time() D { return D{"g": "time", "v": []string{"jan1", "nov10", "leap"}[g.r.Intn(3)]} }
 
 func (g *generator) marshaler() D {
+	switch g.r.Intn(10) {
+	case 5, 6:
+		return D{"g": "marshaler", "ty": "pmoney", "a": D{"cents": g.r.Intn(100000), "cur": []string{"EUR", "", "é"}[g.r.Intn(3)]}}
+	case 7:
+		return D{"g": "marshaler", "ty": "pint", "a": D{"n": g.r.Intn(100)}}
+	case 8, 9:
+		res := g.soyValue(1)
+		if g.r.Intn(8) == 0 {
+			res = D{"t": "gonil"}
+		}
+		return D{"g": "marshaler", "ty": []string{"many", "pany"}[g.r.Intn(2)], "a": D{"v": res}}
+	}
 	switch g.r.Intn(5) {
 	case 0:
 		return D{"g": "marshaler", "ty": "mint", "a": D{"n": g.r.Intn(100)}}
@@ -200,7 +212,7 @@ func (g *generator) leaf() D {
 }
 
 var nilTypes = []string{"int", "bool", "string", "float64", "time", "struct:AInt", "struct:Inner", "slice:int",
-	"map:string", "ptr:int", "iface", "marshaler:mint", "uint8"}
+	"map:string", "ptr:int", "iface", "marshaler:mint", "marshaler:pmoney", "marshaler:pany", "uint8"}
 
 func (g *generator) nilPtr() D {
 	return D{"g": "ptr", "nil": true, "to": nilTypes[g.r.Intn(len(nilTypes))]}
@@ -249,6 +261,17 @@ func (g *generator) uniform(depth int) func() D {
 			return D{"g": "ptr", "nil": false, "v": g.intOfKind(intRanges[0])}
 		}
 	case 6:
+		switch g.r.Intn(3) {
+		case 0: // []PMoney: pointer-receiver marshalers by value
+			return func() D { return D{"g": "marshaler", "ty": "pmoney", "a": D{"cents": g.r.Intn(1000), "cur": "USD"}} }
+		case 1: // []*PMoney with nils
+			return func() D {
+				if g.r.Intn(4) == 0 {
+					return D{"g": "ptr", "nil": true, "to": "marshaler:pmoney"}
+				}
+				return D{"g": "ptr", "nil": false, "v": D{"g": "marshaler", "ty": "pmoney", "a": D{"cents": g.r.Intn(1000), "cur": "USD"}}}
+			}
+		}
 		return func() D {
 			return D{"g": "marshaler", "ty": "idurl", "a": D{"id": g.r.Intn(10), "url": "u"}}
 		}
@@ -291,12 +314,18 @@ func (g *generator) declared(ty string, depth int) D {
 		return st("OuterU", g.emb("inner", st("inner", g.fld("Z", sub()))), g.fld("Y", sub()))
 	case "OuterS":
 		return st("OuterS", g.emb("Inner", inner()), g.fld("X", sub()))
+	case "OuterMV":
+		return st("OuterMV", g.emb("MIDURL", D{"g": "marshaler", "ty": "idurl", "a": D{"id": g.r.Intn(10), "url": "u"}}), g.fld("Y", sub()))
+	case "OuterPM":
+		return st("OuterPM", g.emb("PMoney", D{"g": "marshaler", "ty": "pmoney", "a": D{"cents": g.r.Intn(1000), "cur": "EUR"}}), g.fld("Y", sub()))
+	case "OuterPMP":
+		return st("OuterPMP", g.emb("PMoney", D{"g": "ptr", "nil": false, "v": D{"g": "marshaler", "ty": "pmoney", "a": D{"cents": g.r.Intn(1000), "cur": "EUR"}}}), g.fld("Y", sub()))
 	default:
 		return st("Uni", g.fld("Élan", sub()), g.fld("Ωmega", sub()), g.fld("été", sub()))
 	}
 }
 
-var declaredNames = []string{"AInt", "Inner", "AbU", "OuterE", "OuterP", "OuterU", "OuterS", "Uni"}
+var declaredNames = []string{"AInt", "Inner", "AbU", "OuterE", "OuterP", "OuterU", "OuterS", "Uni", "OuterMV", "OuterPM", "OuterPMP"}
 
 // value generates a descriptor of depth <= depth.
 func (g *generator) value(depth int) D {
